@@ -11,6 +11,12 @@
 (*     decoded    what a fresh decode returned through Next, as runs       *)
 (*                (the same canonical compression as list)                 *)
 (*     out[k]     <<ret, at>>: result of ops[k] and At() right after it    *)
+(*     decoded2   the SAME encoded bytes decoded once more after all that, *)
+(*                drained with Next; againerr its error                    *)
+(*     seekwalk   the same bytes decoded again and walked with             *)
+(*                Seek(At()+1) from the start (strict = the list has no    *)
+(*                duplicates; otherwise not done)                          *)
+(*     intact     the encoded bytes were not modified (informational)      *)
 (* Judged with the property-level operators of PostingsCodec only.         *)
 (***************************************************************************)
 EXTENDS TraceLib, PostingsCodec
@@ -30,6 +36,10 @@ JudgeGroup(e, g) ==
     \cup (IF g.panic # "" \/ g.encerr # "" \/ g.decerr # "" THEN {}
           ELSE (* "decodes to the same list" *)
                (IF g.decoded = e.list /\ g.drainerr = "" THEN {} ELSE {"decodes-to-the-same-list"})
+               (* a cached encoding is decoded many times: "decodes to the same list" holds each time *)
+               \cup (IF g.decoded2 = e.list /\ g.againerr = "" THEN {} ELSE {"decodes-to-the-same-list-again"})
+               (* seeking to (current value + 1) from the start visits every value of a duplicate-free list *)
+               \cup (IF e.strict => g.seekwalk = e.list THEN {} ELSE {"seek-walk-visits-every-value"})
                (* "seeking in the decoded list behaves as seeking in the original" *)
                \cup (IF bad = 0 THEN {}
                      ELSE IF e.ops[bad][1] = "s" THEN {"seek-behaves-as-on-the-original"}
